@@ -42,7 +42,7 @@ func checkC13(c *Ctx) {
 	initRC, runRC := findCallThrough(refRun, initCtx), findCallThrough(refRun, runStmts)
 	r.Ob("FRESH-TASK", "RefRun takes a task from GetContext", t.Pos(refRun.Pos()), newTask != nil, "the callee must not run on the caller's task")
 	okInit := initRC != nil && newTask != nil && initRC.Arg(0) == ssa.Value(newTask) &&
-		path(initRC.Arg(1)) == callerCtx.Name()+".input" && initRC.Arg(2) == ssa.Value(refRun.Params[0]) && path(initRC.Arg(3)) == callerCtx.Name()+".signal"
+		path(initRC.Arg(1)) == pname(callerCtx)+".input" && initRC.Arg(2) == ssa.Value(refRun.Params[0]) && path(initRC.Arg(3)) == pname(callerCtx)+".signal"
 	r.Ob("FRESH-TASK", "RefRun initialises the new task with (caller.input, callee script, caller.signal)", t.Pos(refRun.Pos()), okInit, "the point and the signal are shared, nothing else")
 	okRun := runRC != nil && newTask != nil && (runRC.Arg(0) == ssa.Value(newTask) || (initRC != nil && runRC.Call.Call.Args[0] == ssa.Value(initRC.Call))) &&
 		strings.HasSuffix(path(runRC.Call.Call.Args[1]), ".Ast") && runRC.Root(1) == ssa.Value(refRun.Params[0])
@@ -147,7 +147,7 @@ func checkC13(c *Ctx) {
 		if call, ok := in.(*ssa.Call); ok && funcIs(call.Call.StaticCallee(), pErr, "PlError.ChainAppend") && rr != nil {
 			if call.Call.Args[0] == ssa.Value(rr) && strings.HasSuffix(path(call.Call.Args[2]), ".NamePos") && strings.HasSuffix(path(call.Call.Args[1]), ".Name()") {
 				for _, ec := range controlling(call.Block()) {
-					if bo, ok := ec.Cond.(*ssa.BinOp); ok && bo.X == ssa.Value(rr) && bo.Op == token.NEQ && ec.Pol {
+					if bo, ok := ec.Cond.(*ssa.BinOp); ok && bo.X == ssa.Value(rr) && isNilConst(bo.Y) && ((bo.Op == token.NEQ && ec.Pol) || (bo.Op == token.EQL && !ec.Pol)) {
 						okChain = true
 					}
 				}
@@ -218,7 +218,7 @@ func checkC13(c *Ctx) {
 			if call.Call.StaticCallee() == setExit && call.Call.Args[0] == ssa.Value(exit.Params[0]) {
 				okExit = true
 			} else if call.Call.StaticCallee() != nil {
-				extra = append(extra, call.Call.StaticCallee().Name())
+				extra = append(extra, fnName(call.Call.StaticCallee()))
 			}
 		}
 	})
@@ -263,7 +263,7 @@ func checkC13(c *Ctx) {
 			if fa, ok := in.(*ssa.FieldAddr); ok && fieldName(fa) == "procExit" {
 				reads = true
 			}
-			if call, ok := in.(*ssa.Call); ok && call.Call.StaticCallee() != nil && (call.Call.StaticCallee().Name() == "ProcExit" || call.Call.StaticCallee().Name() == "StmtRetrun") {
+			if call, ok := in.(*ssa.Call); ok && call.Call.StaticCallee() != nil && (fnName(call.Call.StaticCallee()) == "ProcExit" || fnName(call.Call.StaticCallee()) == "StmtRetrun") {
 				reads = true
 			}
 		})
@@ -274,7 +274,7 @@ func checkC13(c *Ctx) {
 	for _, l := range naturalLoops(runStmts) {
 		for b := range l.Blocks {
 			for _, in := range b.Instrs {
-				if call, ok := in.(*ssa.Call); ok && call.Call.StaticCallee() != nil && call.Call.StaticCallee().Name() == "StmtRetrun" {
+				if call, ok := in.(*ssa.Call); ok && call.Call.StaticCallee() != nil && fnName(call.Call.StaticCallee()) == "StmtRetrun" {
 					if iff, ok := b.Instrs[len(b.Instrs)-1].(*ssa.If); ok && iff.Cond == ssa.Value(call) && !l.Blocks[b.Succs[0]] {
 						dom := true
 						for _, la := range l.Latch {
